@@ -141,3 +141,76 @@ mtext('C12',
       'arguments and positions < 2^31. Known finding: is_range_free(start >= end) violates a documented precondition (debug assertion).',
       'static analysis: MIR mutation/dominance analysis (write-before-Err reachability, guard dominance, who-writes) + panic-site prover',
       'DESIGN.md §2 B1 B3 B4 B5 B6, §4 C12')
+
+from .rules import scanner  # noqa: E402
+
+reg(Prop('C15', 'other', [scanner.rule_scanner_structure, scanner.rule_iterator_structure],
+         "Decides the driver structure of the token-stream contract on MIR: B14-SCANNER (FindNumbers::push) — \"-\" and whitespace tokens return before any state is touched; a not_a_number_part token can reach neither parser.push nor number_advanced, ends the number in progress and still updates `previous`; the word presented to the parser is the token's lowercase text or the constant \",\", the latter exactly under has_number() && nt_separated(previous); number_advanced is reachable only from Ok edges with the unmodified enumerate position; Err(Incomplete) neither advances, ends nor breaks; reject -> number_end -> retry with the token's own text; `previous` updated on every other path. B14-ITERATOR — lazy and batch drivers call the same push/finalize with the same arguments, the iterator tests has_matches() before reading and after every single token and returns pop() when true, finalizes on exhaustion, nothing is read by the constructor, the stream is read only by Iterator::next and track_numbers, both drain FIFO (pop_front / into over a push_back-only queue). Does NOT decide equality of the two result sequences for all streams nor the exact look-ahead bound (run-time quantities of the hold/release automaton)."))
+reg(Prop('C06', 'other', [scanner.rule_occ_construction, scanner.rule_decimal_entry, scanner.rule_reset_must],
+         "Decides the construction discipline of occurrences: B13 — Occurence is built at exactly one site with start/end copied from match_start/match_end and text/value/is_ordinal from the parameters; FindNumbers::number_end reads parser.is_ordinal() before string_and_value() (which resets) and passes the two components of that one result; number_advanced sets match_end = pos + 1 on every path and match_start only for an empty span; number_end closes the span on every path; FindNumbers::new is private and both callers pass input.enumerate(). B7-DECIMAL-ENTRY — decimal mode is entered only for a rejected word, not already decimal, non-empty non-ordinal integer part, separator word, and returns Incomplete (decimal xor ordinal). B7-RESET-MUST — the decimal formatter runs iff is_dec && !dec_part.is_empty(), with (int_part, dec_part). From these checked facts spans are increasing, disjoint, in-stream and begin/end on accepted word tokens (hand argument: match_start <= pos < match_end, match_start := match_end after each number). Does NOT decide value = read(text) numerically (std float parsing) nor numeral shape of the formatted text (see C04/C05 template rules)."))
+reg(Prop('C10', 'other', [scanner.rule_reset_must, scanner.rule_scratch_hygiene, builder.rule_field_coverage],
+         "Decides the absence of the carriers of cross-talk: B7-RESET-MUST (every path through string_and_value resets the parser after formatting), B6 (DigitString::reset covers all five fields; WordToDigitParser::reset covers all fields but lang), B7-SCRATCH-HYGIENE (typestate over the annotation passes: a scratch builder is Fresh whenever handed to apply, Dirty on a success edge until reset — the breach behind `du 109` vs `du 100 neuf`). Together with C09's B16 (a breaker forgets the last kind; on_hold is overwritten or taken on every path of number_end) nothing said several words earlier can reach a later number. Does NOT decide rewrite(A S B) = rewrite(A) S rewrite(B) itself, a relational property over pairs of runs."))
+reg(Prop('C07', 'other', [scanner.rule_shared_interpreter, builder.rule_fail_atomic, scanner.rule_scanner_structure, scanner.rule_reset_must],
+         "Decides the mechanisms behind scanner/validator agreement: B15 (one interpreter, two drivers: apply is called only from exec_group, WordToDigitParser::push, the facade, the apply_decimal forwarders and the annotation passes; text2digits = exec_group over the lowercased, whitespace-split text + format_and_value), B3 (a rejected builder operation leaves no digits behind — the breach behind '1000000001 1000000000'), B14-SCANNER (reject -> number_end -> retry on the reset parser with the token's own text; Incomplete never advances a span so no span ends on a dangling conjunction), B7-RESET-MUST (the parser is reset by string_and_value before the retry). Does NOT decide the converse direction (every validated phrase is scanned as one number) nor threshold-0 completeness: both compare two run-time traversals of the word table."))
+
+from .rules import textflow  # noqa: E402
+
+reg(Prop('C11', 'other', [textflow.rule_case_flow, scanner.rule_shared_interpreter],
+         "Decides B9 CASE-FLOW: at every vocabulary-lookup call site of the scanner, parser and annotation passes (apply, apply_decimal, is_linking, is_decimal_sep, get_morph_marker, WordToDigitParser::push) the word argument derives from text_lowercase()/to_lowercase(), a constant, or a parameter whose callers are checked; raw Token::text() flows only into case-blind uses (== \"-\", whitespace / alphabetic classification, trim() != \".\"); vocabulary literals in the annotation passes are compared with lowercase text; BasicToken.lowercase is only ever built from to_lowercase() and text_lowercase returns it; the validator lowercases the phrase before exec_group. Does NOT decide Unicode case-mapping corner cases nor user Token impls returning non-lowercase text."))
+reg(Prop('C17', 'other', [textflow.rule_ws_api, textflow.rule_tokenizer_tiling],
+         "Decides B10 WS-API (no ASCII-only whitespace facility — is_ascii_whitespace, split_ascii_whitespace, trim_ascii, split/trim on a single whitespace character literal, as call or as function item — anywhere in the library; the four classification sites resolve to the Unicode predicates) and B11 TOKENIZER-TILING (separator tokens are maximal non-alphanumeric runs, so any whitespace run stays inside one separator token, is skipped whole by the scanner's is_whitespace and is passed through verbatim). Does NOT decide invariance for mixed whitespace+punctuation separators in every context."))
+reg(Prop('C02', 'other', [textflow.rule_tokenizer_tiling, textflow.rule_replace_conserve, scanner.rule_occ_construction],
+         "Decides the three mechanisms of locality: B11 (match_word/match_sep return the position of the un-consumed peeked character or source.len(), Tokenize::next slices source[pos..end] unmodified and BasicToken stores it verbatim: tokens tile the input), B12 (occurrence spans are replaced by drain(start..end) + insert(start) in reverse order on the same vector, the drained tokens and the text go to Replace::replace unchanged; replace_numbers_in_stream scans input.iter() and replaces in that same input; replace_numbers_in_text is tokenize -> basic_annotate -> replace_numbers_in_stream -> join(\"\"); annotation passes only read the vector and mark through set_nan), B13 (spans come from enumerate indices). Does NOT decide equality replace_text(s,t) = splice(tokens, find_numbers(..)) as a whole for arbitrary UTF-8 (needs span correctness for all streams)."))
+
+from .rules import policy  # noqa: E402
+
+reg(Prop('C09', 'other', [policy.rule_threshold, policy.rule_policy_table, policy.rule_breaker_condition],
+         "Decides: B8 — the threshold field is never written after construction and read exactly once, as the right operand of a strict `value < threshold` conjoined with (one digit || ordinal) (the constant-false branch is taken exactly when neither); the flag is only passed to NumTracker::number_end where it is branched on once: true can only hold a number, false can only emit it — hence recognition is independent of the threshold, rewriting is monotone in it and t <= 0 or NaN rewrites everything (values are parses of digit strings, >= 0). B16 — the loop-free hold/release function is evaluated on all 24 finite-domain cases (last kind x held x ordinal x small) by an abstract interpreter over its MIR and compared with the table the statement prescribes; sequence_breaker only forgets the last kind. B8-BREAKER — the 8-row truth table of outside_number's condition over its three atoms (no alphabetic char, not a lone period, linking word). Does NOT decide the iff-characterisation of `isolated` over whole token streams (iterating the checked per-step table over unbounded streams is model checking)."))
+
+mtext('C15',
+      'Decides named structural clauses (necessary conditions) of the property from the type-resolved MIR of the current tree; see the evidence explanation for the clause list. Level `other`: the compositional behaviour over all inputs is not decided.',
+      'Undecided clauses are listed at the end of the explanation in the evidence file and in DESIGN.md §4. Trusted: rustc facts, the rule engine, std/daachorse/phf by signature; closed world (user trait impls outside the claim).',
+      'static analysis: MIR path/dominance rules on FindNumbers::push, Iterator::next and track_numbers (must-pass-through, reachability between resolved call sites, edge facts)',
+      'DESIGN.md §2 B14, §4 C15')
+
+mtext('C06',
+      'Decides named structural clauses (necessary conditions) of the property from the type-resolved MIR of the current tree; see the evidence explanation for the clause list. Level `other`: the compositional behaviour over all inputs is not decided.',
+      'Undecided clauses are listed at the end of the explanation in the evidence file and in DESIGN.md §4. Trusted: rustc facts, the rule engine, std/daachorse/phf by signature; closed world (user trait impls outside the claim).',
+      'static analysis: MIR provenance rules: single construction site, field provenance by value descriptors, dominance ordering of is_ordinal before string_and_value, guard dominance of decimal-mode entry',
+      'DESIGN.md §2 B13 B7, §4 C06')
+
+mtext('C10',
+      'Decides named structural clauses (necessary conditions) of the property from the type-resolved MIR of the current tree; see the evidence explanation for the clause list. Level `other`: the compositional behaviour over all inputs is not decided.',
+      'Undecided clauses are listed at the end of the explanation in the evidence file and in DESIGN.md §4. Trusted: rustc facts, the rule engine, std/daachorse/phf by signature; closed world (user trait impls outside the claim).',
+      'static analysis: MIR must-pass-through (reset), field-coverage inventory, typestate dataflow over scratch builders of the annotation passes',
+      'DESIGN.md §2 B6 B7, §4 C10')
+
+mtext('C07',
+      'Decides named structural clauses (necessary conditions) of the property from the type-resolved MIR of the current tree; see the evidence explanation for the clause list. Level `other`: the compositional behaviour over all inputs is not decided.',
+      'Undecided clauses are listed at the end of the explanation in the evidence file and in DESIGN.md §4. Trusted: rustc facts, the rule engine, std/daachorse/phf by signature; closed world (user trait impls outside the claim).',
+      'static analysis: who-may-call inventory of apply + write-before-Err reachability in DigitString + MIR ordering rules of the scanner',
+      'DESIGN.md §2 B15 B3 B14, §4 C07')
+
+mtext('C11',
+      'Decides named structural clauses (necessary conditions) of the property from the type-resolved MIR of the current tree; see the evidence explanation for the clause list. Level `other`: the compositional behaviour over all inputs is not decided.',
+      'Undecided clauses are listed at the end of the explanation in the evidence file and in DESIGN.md §4. Trusted: rustc facts, the rule engine, std/daachorse/phf by signature; closed world (user trait impls outside the claim).',
+      'static analysis: value-descriptor flow check (taint by provenance) from Token::text()/to_lowercase() to vocabulary-lookup call sites',
+      'DESIGN.md §2 B9, §4 C11')
+
+mtext('C17',
+      'Decides named structural clauses (necessary conditions) of the property from the type-resolved MIR of the current tree; see the evidence explanation for the clause list. Level `other`: the compositional behaviour over all inputs is not decided.',
+      'Undecided clauses are listed at the end of the explanation in the evidence file and in DESIGN.md §4. Trusted: rustc facts, the rule engine, std/daachorse/phf by signature; closed world (user trait impls outside the claim).',
+      'static analysis: callee/function-item inventory against banned ASCII-whitespace facilities + tokenizer shape rules',
+      'DESIGN.md §2 B10 B11, §4 C17')
+
+mtext('C02',
+      'Decides named structural clauses (necessary conditions) of the property from the type-resolved MIR of the current tree; see the evidence explanation for the clause list. Level `other`: the compositional behaviour over all inputs is not decided.',
+      'Undecided clauses are listed at the end of the explanation in the evidence file and in DESIGN.md §4. Trusted: rustc facts, the rule engine, std/daachorse/phf by signature; closed world (user trait impls outside the claim).',
+      'static analysis: MIR shape/provenance rules on the tokenizer, NumTracker::replace and the rewrite pipeline; mutation inventory of the annotation passes',
+      'DESIGN.md §2 B11 B12 B13, §4 C02')
+
+mtext('C09',
+      'Decides named structural clauses (necessary conditions) of the property from the type-resolved MIR of the current tree; see the evidence explanation for the clause list. Level `other`: the compositional behaviour over all inputs is not decided.',
+      'Undecided clauses are listed at the end of the explanation in the evidence file and in DESIGN.md §4. Trusted: rustc facts, the rule engine, std/daachorse/phf by signature; closed world (user trait impls outside the claim).',
+      'static analysis: field read/write inventory + guard facts for the threshold; finite-domain abstract interpretation of NumTracker::number_end (24 cases) and of the breaker condition (8 rows)',
+      'DESIGN.md §2 B8 B16, §4 C09')
